@@ -70,9 +70,15 @@ Record == /\ Ev.ev = "Record"
              ELSE IF Ev.peak > 4 * Ev.len + Slack THEN Note("BoundedAllocation", "DhtRecord::deserialize", "bytes")
              ELSE NoNote
 
+(* a lookup answered by a hostile peer with a value: whatever the caller gets, the node retains nothing over the limit *)
+HostileGet == /\ Ev.ev = "HostileGet"
+              /\ IF Ev.panic THEN Note("NoPanic", "get", "hostile-value")
+                 ELSE IF Ev.held_len > MaxValue THEN Note("ValueLimit", "get", "oversized-reply-cached")
+                 ELSE NoNote
+
 Reset == Ev.ev = "Reset" /\ NoNote
 Init == l = 1 /\ viol = <<>> /\ nviol = 0 /\ n = 0
-Next == l <= N /\ l' = l + 1 /\ n' = n + 1 /\ (Reset \/ Frame \/ DhtMsg \/ EngineReq \/ Record)
+Next == l <= N /\ l' = l + 1 /\ n' = n + 1 /\ (Reset \/ Frame \/ DhtMsg \/ EngineReq \/ Record \/ HostileGet)
 Spec == Init /\ [][Next]_vars
 Report == (l = N + 1) =>
   JsonSerialize(IOEnv.OUT, [consumed |-> l - 1, total |-> N, nviol |-> nviol, checked |-> n, viol |-> viol])
